@@ -7,7 +7,7 @@
 cd "$(dirname "$(readlink -f "$0")")/.."
 wt=${MUTANTS_WT:-/tmp/wt_mutants}
 if [ ! -d "$wt" ]; then git -C /repo worktree add -q --detach "$wt" HEAD || exit 3; fi
-git -C "$wt" checkout -q --detach "$(git -C /repo rev-parse HEAD)"; git -C "$wt" checkout -q -- .
+git -C "$wt" checkout -q -- .; git -C "$wt" checkout -q --detach "$(git -C /repo rev-parse HEAD)" || exit 3
 sel=" $* "
 run_one() {  # label pid patch
   local label=$1 pid=$2 abs; abs=$(readlink -f "$3")
